@@ -169,6 +169,14 @@ func cmdEngineTraces(args []string) {
 				c2.Calls = append([]CallCfg{}, c.Calls...)
 				c2.Calls[last].CancelAt = s
 				runOne(&c2)
+				if s >= 2 && r.Intn(2) == 0 {
+					// the same cancellation point, after a user method ran other rules on the same engine value
+					c4 := *c
+					c4.Calls = append([]CallCfg{}, c.Calls...)
+					c4.Calls[last].CancelAt = s
+					c4.Calls[last].NestAt = 1 + r.Intn(2)
+					runOne(&c4)
+				}
 			}
 			c3 := *c
 			c3.Calls = append([]CallCfg{}, c.Calls...)
